@@ -7,9 +7,22 @@
          on something that identifies the enclosing function program-wide, not only on the module-local CardIndex.
   C06.R  close before truncate: instr_return closes upvalues before it truncates the value stack; scope_end emits
          CloseUpvalue for captured locals and Pop for the others.
+  C06.V  a closure captures the innermost binding of a name: resolve_upvalue scans the enclosing function's locals back to
+         front (as resolve_var does, C01.V).
+  C06.D  upvalue descriptors are de-duplicated on their full identity: the early return of add_upvalue compares every
+         field of the descriptor it would otherwise push ((is_local, index) - a local slot and a parent upvalue with the
+         same number are different variables).
+  C06.N  the list of open upvalues stays linked: where register_upvalue puts a new upvalue into the list, the new
+         node's `next` receives the successor the search stopped at, and its predecessor (or the list head) receives
+         the new node.
+  C06.X  the components xor-ed into a closure label cannot cancel: Handle's `+` is xor, so two components produced by
+         the same hash from run-of-the-mill indices (e.g. from_u64(module-local function index) and
+         from_u64(program-wide function index)) cancel whenever the indices are equal and the label no longer depends
+         on either.
   C06.U  scope / compile brackets balanced (= C01.S, shared).
 """
-from cao.facts import (AnchorMissing, callee_names, short, op_local, op_place, DefUse, hir_walk, hir_callee, hir_strip, hir_local_id)
+from cao.facts import (AnchorMissing, callee_names, short, op_local, op_place, DefUse, hir_walk, hir_callee, hir_strip, hir_local_id,
+                       iter_stmts, rvalue_operands, rvalue_places)
 from cao.rules import Rule, ok, bad, undecided, note
 from cao import mirutil as mu
 from cao import hirutil as hu
@@ -330,8 +343,348 @@ def rule_r(F):
     return res
 
 
+# ---------------------------------------------------------------------------------------------------
+# C06.V, C06.D
+# ---------------------------------------------------------------------------------------------------
+
+def rule_v(F):
+    from cao import scoping as sc
+    return sc.rule_innermost(F, "C06.V", "compiler::Compiler::resolve_upvalue", "locals", "C06/V/resolve_upvalue")
+
+
+def rule_d(F):
+    from cao import scoping as sc
+    res = []
+    f = F.fn("compiler::Compiler::add_upvalue")
+    key = "C06/D/add_upvalue/dedup-compares-whole-descriptor"
+    # the descriptor that is pushed when no existing one matches
+    lit = None
+    for x in hir_walk(f.hir["body"]):
+        if x.get("k") == "struct" and short(x["path"]["res"].get("path", "")).endswith("Upvalue"):
+            lit = x
+    if lit is None:
+        raise AnchorMissing("Upvalue { .. } literal in add_upvalue")
+    want = {}
+    for fld in lit["fields"]:
+        lid = hir_local_id(hu.strip_casts(fld["e"]))
+        if lid is None:
+            return [undecided("C06.D", key, f.loc(lit["ln"]), "descriptor field `%s` is not initialised from a parameter" % fld["name"])]
+        want[fld["name"]] = lid
+    adt = F.adt("compiler::Upvalue")
+    all_fields = [fl["name"] for fl in adt["variants"][0]["fields"]]
+    ss = [s for s in sc.searches(f) if "upvalues" in s["base_fields"] and s["first_hit"]]
+    if not ss:
+        return [note("C06.D", key, f.loc(), "add_upvalue does not look for an existing descriptor (no de-duplication: nothing to conflate)")]
+    for s in ss:
+        eqs = []
+        pure = True
+        for c in s["conds"]:
+            e = sc.conj_eqs(c)
+            if e is None:
+                pure = False
+            else:
+                eqs += e
+        if not pure:
+            res.append(undecided("C06.D", key, f.loc(s["ln"]), "the de-duplication condition is not a conjunction of equalities"))
+            continue
+        have = set()
+        for l, r in eqs:
+            for a, b in ((l, r), (r, l)):
+                if a.get("k") == "field" and hir_local_id(hu.strip_all(a["e"])) in s["elem_ids"]:
+                    if hir_local_id(b) == want.get(a["name"]):
+                        have.add(a["name"])
+        missing = [n for n in all_fields if n not in have]
+        if missing:
+            res.append(bad("C06.D", key, f.loc(s["ln"]),
+                           "add_upvalue returns an existing descriptor when only %s match; the descriptor it would push also has %s: "
+                           "descriptors that differ in %s are conflated (e.g. local slot k of the parent and the parent's k-th upvalue are "
+                           "two different variables), the closure then reads and writes the wrong variable"
+                           % (sorted(have), missing, missing), compared=sorted(have), fields=all_fields))
+        else:
+            res.append(ok("C06.D", key, f.loc(s["ln"]), "the early return compares all descriptor fields %s" % all_fields, fields=all_fields))
+    return res
+
+
+# ---------------------------------------------------------------------------------------------------
+# C06.X
+# ---------------------------------------------------------------------------------------------------
+HASH_CTORS = {"from_u64": "fnv-u64", "from_i64": "fnv-u64", "from_u32": "fnv-u32", "from_bytes": "fnv-bytes", "from_str": "fnv-bytes",
+              "from_slice": "fnv-bytes", "from_bytes_iter": "fnv-bytes"}
+
+
+def _is_const_expr(e):
+    e = hu.strip_all(e)
+    if e is None:
+        return False
+    if e.get("k") == "lit":
+        return True
+    if e.get("k") == "path":
+        r = e["path"]["res"]
+        return r["k"] == "def" and str(r.get("def_kind", "")).split(" ")[0] in ("Const", "AssocConst", "ConstParam")
+    return False
+
+
+def _param_field_binding(f, lid):
+    """if local <lid> is bound by destructuring a struct-typed parameter: (adt path, field name)"""
+    def rec(p, owner):
+        if p is None:
+            return None
+        k = p.get("k")
+        if k == "bind":
+            if p["id"] == lid and owner is not None:
+                return owner
+            return rec(p.get("sub"), owner)
+        if k == "struct":
+            adt = short(p["path"]["res"].get("path", ""))
+            for fl in p["fields"]:
+                r = rec(fl["pat"], (adt, fl["name"]))
+                if r:
+                    return r
+            return None
+        if k in ("ref", "deref", "box"):
+            return rec(p["pat"], owner)
+        return None
+    for p in f.hir["params"]:
+        r = rec(p, None)
+        if r:
+            return r
+    return None
+
+
+def xor_leaves(F, f, e, depth=0, seen=None):
+    """leaves of a tree of Handle `+` (xor): list of (hash kind | 'opaque', is_const, description)"""
+    if seen is None:
+        seen = set()
+    e = hu.strip_all(e)
+    if e is None or depth > 12:
+        return [("opaque", False, "?")]
+    k = e.get("k")
+    if k == "bin" and e["op"] == "Add" and any(n.endswith("Handle::add") or n.endswith("Add::add") for n in hir_callee(e)):
+        return xor_leaves(F, f, e["l"], depth + 1, seen) + xor_leaves(F, f, e["r"], depth + 1, seen)
+    if k in ("call", "mcall"):
+        names = hir_callee(e)
+        for n in names:
+            last = n.rsplit("::", 1)[-1]
+            if "Handle" in n and last in HASH_CTORS:
+                args = e["args"]
+                return [(HASH_CTORS[last], all(_is_const_expr(a) for a in args), "%s(..) at %s" % (last, f.loc(e.get("ln"))))]
+        # a crate function returning a Handle: expand its body
+        for n in names:
+            g = F.fns_by_short.get(n) if hasattr(F, "fns_by_short") else None
+            try:
+                g = F.fn(n)
+            except Exception:
+                g = None
+            if g is not None and g.hir is not None and (n, "fn") not in seen:
+                seen.add((n, "fn"))
+                body = g.hir["body"]
+                return xor_leaves(F, g, body, depth + 1, seen)
+        return [("opaque", False, "call %s" % (names or e.get("name")))]
+    if k == "block":
+        bl = e["block"]
+        if bl.get("expr") is not None:
+            return xor_leaves(F, f, bl["expr"], depth + 1, seen)
+        return [("opaque", False, "block")]
+    if k == "path":
+        r = e["path"]["res"]
+        if r["k"] == "local":
+            if (f.path, r["id"]) in seen:
+                return [("opaque", False, "cyclic local " + r["name"])]
+            seen.add((f.path, r["id"]))
+            inits = hu.let_inits(f).get(r["id"], [])
+            if len(inits) == 1:
+                return xor_leaves(F, f, inits[0], depth + 1, seen)
+            pf = _param_field_binding(f, r["id"])
+            if pf is not None:
+                return _field_sources(F, pf[0], pf[1], depth, seen)
+            return [("opaque", False, "local " + r["name"])]
+        if _is_const_expr(e):
+            return [("const", True, "const")]
+        return [("opaque", False, "path")]
+    if k == "field":
+        fc = hu.field_chain(e)
+        if fc is not None and fc[1]:
+            owner = short(hu.strip_all(e["e"]).get("ty", "")).split("<")[0].lstrip("&mut ").strip()
+            return _field_sources(F, owner, fc[1][-1], depth, seen)
+    return [("opaque", False, str(k))]
+
+
+def _field_sources(F, owner, field, depth, seen):
+    """all values stored into <owner>.<field> anywhere in the crate: assignments and struct literals"""
+    if ("field", owner, field) in seen:
+        return []
+    seen.add(("field", owner, field))
+    out = []
+    oshort = owner.rsplit("::", 1)[-1]
+    for g in F.fns:
+        if g.hir is None or g.raw.get("from_expansion"):
+            continue  # derived impls (Clone, Deserialize) only copy the field
+        for x in hir_walk(g.hir["body"]):
+            if x.get("k") == "assign":
+                l = hir_strip(x["l"])
+                if l.get("k") == "field" and l["name"] == field:
+                    t = hu.strip_all(l["e"]).get("ty", "")
+                    if oshort in t:
+                        out += xor_leaves(F, g, x["r"], depth + 1, seen)
+            elif x.get("k") == "struct" and short(x["path"]["res"].get("path", "")).rsplit("::", 1)[-1] == oshort:
+                for fl in x["fields"]:
+                    if fl["name"] == field:
+                        if _is_const_expr(fl["e"]) or (hu.strip_all(fl["e"]).get("k") == "call" and not hu.strip_all(fl["e"])["args"]):
+                            continue  # Default::default() placeholder of the constructor
+                        out += xor_leaves(F, g, fl["e"], depth + 1, seen)
+    return out or [("opaque", False, "%s.%s has no visible source" % (owner, field))]
+
+
+def rule_x(F):
+    res = []
+    f = F.fn("compiler::Compiler::process_card")
+    from rules.c10 import arm_labels
+    labels = arm_labels(f)
+    inserts = []
+    for x in hir_walk(f.hir["body"]):
+        if x.get("k") == "mcall" and x["name"] == "insert":
+            fc = hu.field_chain(x["recv"])
+            if fc and fc[1][-2:] == ["labels", "0"] and labels.get(id(x)) == "Closure":
+                inserts.append(x)
+    if not inserts:
+        raise AnchorMissing("label insertion in the Closure arm of process_card")
+    for x in inserts:
+        key = "C06/X/process_card[Closure]/label-components-cannot-cancel"
+        lv = xor_leaves(F, f, x["args"][0])
+        groups = {}
+        for kind, const, desc in lv:
+            if kind not in ("opaque", "const") and not const:
+                groups.setdefault(kind, []).append(desc)
+        opaque = [d for kind, const, d in lv if kind == "opaque"]
+        clash = {k: v for k, v in groups.items() if len(v) > 1}
+        if clash:
+            res.append(bad("C06.X", key, f.loc(x["ln"]),
+                           "the closure label xors %s: components hashed alike cancel whenever their inputs are equal (e.g. the module-local "
+                           "and the program-wide index of a function of the root module), closures at the same card position of different "
+                           "functions then share one label and one runs the other's body" % clash, leaves=[list(l) for l in lv]))
+        elif opaque:
+            res.append(undecided("C06.X", key, f.loc(x["ln"]), "label components not understood: %s" % opaque))
+        else:
+            res.append(ok("C06.X", key, f.loc(x["ln"]), "xor-ed components use distinct hashes: %s" % {k: len(v) for k, v in groups.items()},
+                          leaves=[list(l) for l in lv]))
+    return res
+
+
+# ---------------------------------------------------------------------------------------------------
+# C06.N
+# ---------------------------------------------------------------------------------------------------
+
+def rule_n(F):
+    """MIR: in register_upvalue, the block that writes `<prev>.next = new` or `open_upvalues = new` must be preceded on
+    every path from the creation of the new node (init_upvalue) by a write of `<new>.next`."""
+    res = []
+    f = F.fn(IE + "register_upvalue")
+    cfg = f.cfg
+    inits = [bi for bi, t in mu.calls(f) if any(n.endswith("init_upvalue") for n in callee_names(t["func"]))]
+    if not inits:
+        raise AnchorMissing("init_upvalue call in register_upvalue")
+    # writes of a `.next` field and of open_upvalues
+    next_writes = []
+    head_writes = []
+    for bi, si, st in iter_stmts(f):
+        names = [e["name"] for e in st["place"]["p"] if e["k"] == "field"]
+        if names and names[-1] == "next":
+            next_writes.append((bi, si, st))
+        if names and names[-1] == "open_upvalues":
+            head_writes.append((bi, si, st))
+    du = DefUse(f)
+    new_roots = set()
+    for bi in inits:
+        t = f.mir["blocks"][bi]["term"]
+        d = t.get("dest")
+        if d is not None:
+            new_roots.add(d["l"])
+
+    def from_new(op, depth=0):
+        """does the operand derive (by moves, casts, field projections, as_ptr-like calls) from the init_upvalue result?"""
+        p = op_place(op)
+        if p is None:
+            return False
+        seen = set()
+        work = [p["l"]]
+        while work:
+            l = work.pop()
+            if l in seen:
+                continue
+            seen.add(l)
+            if l in new_roots:
+                return True
+            for _b, _s, dk, d in du.defs.get(l, []):
+                if d.get("place", d.get("dest"))["p"]:
+                    continue  # a write through the local, not a definition of it
+                if dk == "assign":
+                    for pl in rvalue_places(d["rv"]):
+                        work.append(pl["l"])
+                elif dk == "call":
+                    for a in d["args"]:
+                        q = op_place(a)
+                        if q is not None:
+                            work.append(q["l"])
+        return False
+
+    def from_list(op):
+        """does the operand derive from the list cursor (a value read from open_upvalues / some node's next)?"""
+        p = op_place(op)
+        if p is None:
+            return False
+        seen = set()
+        work = [p["l"]]
+        while work:
+            l = work.pop()
+            if l in seen:
+                continue
+            seen.add(l)
+            for _b, _s, dk, d in du.defs.get(l, []):
+                if d.get("place", d.get("dest"))["p"]:
+                    continue
+                if dk == "assign":
+                    for pl in rvalue_places(d["rv"]):
+                        if any(e["k"] == "field" and e["name"] in ("open_upvalues", "next") for e in pl["p"]):
+                            return True
+                        work.append(pl["l"])
+        return False
+
+    def base_from_new(place):
+        return from_new({"k": "copy", "place": {"l": place["l"], "p": []}})
+
+    link_in = []   # writes that make the new node reachable from the list
+    self_link = []  # writes of new.next
+    for bi, si, st in next_writes:
+        rv = st["rv"]
+        ops = rvalue_operands(rv)
+        if base_from_new(st["place"]):
+            if any(from_list(o) for o in ops):
+                self_link.append(bi)
+        elif any(from_new(o) for o in ops):
+            link_in.append((bi, "predecessor.next"))
+    for bi, si, st in head_writes:
+        if any(from_new(o) for o in rvalue_operands(st["rv"])):
+            link_in.append((bi, "open_upvalues"))
+    if not link_in:
+        raise AnchorMissing("insertion of the new upvalue into the open list in register_upvalue")
+    for bi, what in link_in:
+        key = "C06/N/register_upvalue/new-node-linked-before-%s" % what
+        if any(cfg.dominates(sb, bi) for sb in self_link):
+            res.append(ok("C06.N", key, f.loc(), "the new upvalue's `next` is written before it becomes reachable through %s" % what))
+        else:
+            res.append(bad("C06.N", key, f.loc(),
+                           "register_upvalue makes the new upvalue reachable through %s without ever writing its `next` (init_upvalue "
+                           "creates it with next = null): every open upvalue of a lower stack slot drops out of the list, is never "
+                           "closed, and its closure reads a dead stack slot after the function returned" % what))
+    return res
+
+
 RULES = [
     Rule("C06.O", rule_o, 3, "value-stack slots addressed from bytecode operands are frame-relative"),
     Rule("C06.L", rule_l, 1, "closure labels are program-unique"),
     Rule("C06.R", rule_r, 2, "upvalues are closed before their slots disappear"),
+    Rule("C06.V", rule_v, 1, "a closure captures the innermost binding of a name"),
+    Rule("C06.D", rule_d, 1, "upvalue descriptors are de-duplicated on their full identity"),
+    Rule("C06.X", rule_x, 1, "xor-ed label components cannot cancel"),
+    Rule("C06.N", rule_n, 2, "the open-upvalue list stays linked when a node is inserted"),
 ]
